@@ -959,6 +959,11 @@ def run_G(pid, tier, seed):
                                                     dict(case=m["case"], model=a, real=real), slice_="G"))
                     continue
                 model = ("SEL", sorted(int(x) for x in a[1:]))
+                if real[0] == "VALUEERROR" and pid == "C12":
+                    # the documented closure exists (the model selects) and none of the documented refusals applies
+                    failures.append(Failure("counterexample", "valid-selection-refused", sc,
+                                            dict(case=m["case"], real=real, model=model), slice_="G"))
+                    continue
                 if real[0] == "EXC":
                     # the selection is valid (the model selects), the real code raised something else than ValueError
                     failures.append(Failure("counterexample", "valid-selection-raised:" + real[1], sc,
@@ -1401,9 +1406,9 @@ reg("C10", ["Props.C10_flag_reads_full_reference", "Props.C10_execution_inactive
 import slice_h as H  # noqa: E402
 
 KINDS_H = {
-    "C03": ["call", "call", "exec", "exec", "setup", "setupsel", "fork", "xmk", "xrun", "cache", "rerun"],
-    "C11": ["call", "call", "exec", "setup", "setupsel", "fork", "xmk", "xrun", "xrun", "xsetup", "cache"],
-    "C15": ["call", "call", "call", "exec", "rerun", "rerun", "config", "compose", "setup", "xmk", "xrun", "xrun", "setupfail"],
+    "C03": ["call", "call", "exec", "exec", "setup", "setupsel", "fork", "xmk", "xrun", "cache", "rerun", "config"],
+    "C11": ["call", "call", "exec", "setup", "setupsel", "fork", "xmk", "xrun", "xrun", "xsetup", "cache", "config"],
+    "C15": ["call", "call", "call", "exec", "rerun", "rerun", "config", "compose", "setup", "xmk", "xrun", "xrun", "setupfail", "cache"],
     "C18": ["cache", "cache", "call", "setup", "xmk", "xrun"],
 }
 
@@ -2007,6 +2012,11 @@ def run_A(pid, tier, seed):
         stats["liveness_runs"] += 1
         if not ok:
             failures.append(Failure("counterexample", "loop-blocked/async-only", dict(kinds=[], maxc=maxc), detail, slice_="A"))
+    # ... also after a reconfiguration that only restates priorities (every node keeps its resource)
+    ok, detail = A.liveness([], 2, reconfigure=True)
+    stats["liveness_runs"] += 1
+    if not ok:
+        failures.append(Failure("counterexample", "loop-blocked/async-only-after-reconfiguration", dict(kinds=[], maxc=2, reconfigured=True), detail, slice_="A"))
     # ... nor when one of two async-thread nodes in flight FAILS while the other is still running
     for maxc in (2, 3):
         ok, detail = A.liveness_on_failure(maxc)
